@@ -256,6 +256,7 @@ def gen_tg(rng, tier, cls, i):
     if points and rng.random() < 0.3 and p >= 2:
         # "length 0 within precision": ends differ below the printed digits
         segs = [(s, s + 10.0 ** (-p - 2) * rng.choice([0, 1, 3])) for s, e in segs]
+        segs.sort()  # entries sharing a start must stay a tier: ordered by end as well
     tr = [[_tok(rng, TG_TOKENS, _TG_CHARS), s, e] for s, e in segs]
     point_tier = None
     r = rng.random()
